@@ -15,7 +15,7 @@ BOUNDS = {
     'quick': 'N in 3..6 unbounded symbolic real samples (ties allowed); stop in {fixed(1), fixed(2), sd(symbolic threshold in (0,1), '
              'max_iters 2), rilling(default thresholds, formula model, max_iters 2)}; step in {1, 1/2, 1/3}; interpolation in {splrep exact, pchip, '
              'mono_pchip uninterpreted}; pad width in {1,2,3}; 10 configurations of that grid; no IMF cap, no energy threshold',
-    'thorough': 'N <= 7 (fixed stop), N <= 6 (sd, rilling); full grid of stop x step x interpolation x pad width at N = 6',
+    'thorough': 'N <= 7 (fixed stop), N = 6: 18 combinations of stop {fixed1, fixed2, rilling} x (step, interpolation, pad width) and two sd configurations',
 }
 OUTSIDE = 'longer signals, more than 3 sifting iterations per IMF, float rounding (sums compared exactly over the reals), ' \
           'non-default loc/mag pad options (C06)'
@@ -24,7 +24,7 @@ ASSUMPTIONS = ['rilling_stop replaced by its documented formula in the rilling c
                'sd stop: the threshold is a symbolic real in (0,1); nonlinear queries may end unknown (counted inconclusive)']
 REQUIRED_CLASSES = ['two-or-more-imfs', 'extrema-vanish-after-iteration', 'residual-only', 'ended-of-own-accord']
 EXPECTED_LABELS = ['never-raises', 'additive', 'residual-non-oscillatory', 'shape']
-BUDGET_S = {'quick': 170, 'thorough': 900}
+BUDGET_S = {'quick': 170, 'thorough': 1200}
 OPTS = {'quick': {'sample_every': 9}, 'thorough': {'sample_every': 9, 'timeout_ms': 20000}}
 
 SIFT_THRESH = 1e-8
@@ -47,13 +47,14 @@ def configs(tier):
     else:
         out.append(cfg(7, 'fixed1', '1', 'splrep', 2))
         out.append(cfg(7, 'fixed2', '1/2', 'splrep', 2))
-        for stop in ('fixed1', 'fixed2', 'sd', 'rilling'):
-            for step in ('1', '1/2', '1/3'):
-                for interp in ('splrep', 'pchip', 'mono_pchip'):
-                    for w in (1, 2, 3):
-                        if stop == 'sd' and (interp != 'splrep' or (step != '1' and w != 2)):
-                            continue
-                        out.append(cfg(6, stop, step, interp, w))
+        for stop in ('fixed1', 'fixed2', 'rilling'):
+            for step, interp, w in (('1', 'splrep', 2), ('1/2', 'splrep', 1), ('1/3', 'splrep', 3), ('1', 'pchip', 2), ('1/2', 'mono_pchip', 3),
+                                    ('1/3', 'pchip', 1)):
+                out.append(cfg(6, stop, step, interp, w))
+        for step, w in (('1', 2), ('1/2', 1)):
+            c = cfg(6, 'sd', step, 'splrep', w)
+            c[1]['_budget_s'] = 150
+            out.append(c)
     return out
 
 
